@@ -230,7 +230,9 @@ class Gf180Walker(h.HierarchyWalker):
         w = self.scale_param(params.w, 1000 * MILLI)
         l = self.scale_param(params.l, 1000 * MILLI)
 
-        modparams = GF180CapParams(c_width=w, c_length=l)
+        m = 1 if params.mult is None else int(params.mult)
+
+        modparams = GF180CapParams(c_width=w, c_length=l, m=m)
 
         modcall = mod(modparams)
         CACHE.cap_modcalls[params] = modcall
